@@ -67,7 +67,10 @@ def group_source(g, k):
             parts.append("parallelizable=%r" % bool(i["par"]))
         insts.append("ExperimentInstance(%s)" % ", ".join(parts))
     src = "run_command(name='d1', run='true')\nrun_command(name='d2', run='true')\n"
-    args = ["name=%r" % g["name"], "run=%r" % g["run"], "experiments=[%s]" % ", ".join(insts)]
+    # `experiments` is any Iterable[ExperimentInstance]: a list, a tuple, or a one-shot iterable (generator, iter(...), map)
+    lst = "[%s]" % ", ".join(insts)
+    container = [lst, "tuple(%s)" % lst, "(e for e in %s)" % lst, "iter(%s)" % lst, lst, "map(lambda e: e, %s)" % lst][(k // 2) % 6]
+    args = ["name=%r" % g["name"], "run=%r" % g["run"], "experiments=%s" % container]
     if g["chain"] or k % 2:
         args.append("chain_experiments=%r" % bool(g["chain"]))
     if g["deps"] or k % 3 == 1:
